@@ -2285,8 +2285,19 @@ def main():
         for vid, what in r["v"]:
             if r["spec"] is not best[vid][0]:
                 R.violation(vid, what)
+    not_ended = []
     for cls, items in sorted(und.items()):
+        if cls.startswith("run did not end") or cls.startswith("run hangs"):
+            # termination / crashes are decided under C05 (where they are violations); for the other
+            # clauses such a world simply offers nothing to evaluate. Guard against vacuity: if a large
+            # share of the worlds ends like that, this pid's clauses were not really exercised.
+            not_ended.append((cls, len(items), items[0][0], items[0][1][:400]))
+            continue
         R.undecided.append("%d world(s), e.g. %s: %s" % (len(items), items[0][0], items[0][1][:700]))
+    n_not_ended = sum(x[1] for x in not_ended)
+    R.extra["worlds_not_evaluated_because_the_run_did_not_end"] = {"count": n_not_ended, "examples": not_ended[:3], "decided_under": "C05"}
+    if results and n_not_ended > 0.4 * len(results):
+        R.undecided.append("%d of %d worlds did not reach their end event (decided under C05): too few evaluable worlds for %s" % (n_not_ended, len(results), args.pid))
     R.bound = ("%d sampled worlds (balanced over: %d graph sets of <=3 graphs x <=4 tasks from "
                "shapes %s; %d clusters of 1-2 pools x 1-2 workers x 1-2 resource types; %d "
                "strategy patterns (1-2 strategies); runtimes {1,2,5}%s; deadlines loose/tight/"
@@ -2296,6 +2307,16 @@ def main():
                "runtime variance 0, no preemption); outcomes %s; sampled, not exhaustive" % (
                    len(worlds), len(GRAPHSETS), sorted(SHAPES), len(POOLS), len(STRATS),
                    " + 0 in dedicated C05 worlds" if pid == "C05" else "", dict(outcomes)))
+    if pid == "C09":
+        R.bound = ("%d sampled worlds, each run through `python main.py` in %d fresh processes "
+                   "with different PYTHONHASHSEED and the same --random_seed (YAML workload + "
+                   "YAML cluster written to a temp dir): %d graph sets of <=3 graphs x <=4 tasks "
+                   "(shapes %s), %d clusters (1-2 pools, 1-2 workers, 1-2 resource types), release "
+                   "policies fixed/closed_loop/poisson/gamma, deadline variance 0 or 0..50%%, "
+                   "EDF/FIFO/LSF, enforce_deadlines on/off, scheduler_runtime 0 (fixed by flag), "
+                   "scheduler_frequency -1/3, runtime variance 0; outcomes %s; sampled, not "
+                   "exhaustive" % (len(worlds), len(worlds[0]["hashseeds"]) if worlds else 0,
+                                   len(GRAPHSETS), sorted(SHAPES), len(POOLS), dict(outcomes)))
     R.extra["slowest_world_seconds"] = round(max([r["secs"] for r in results] or [0]), 2)
     R.finish()
 
